@@ -307,6 +307,11 @@ template <class D> static void step(World<D> &W, const std::string &opstr, bool 
     std::swap(W.A, W.B);
     std::swap(W.sA, W.sB);
   } else if (op == "join" || op == "joineq" || op == "wid" || op == "widt") {
+#if DOM == 15
+    // known finding F35: the widening of lookahead_widening_domain assumes an increasing pair (left <= right)
+    if ((op == "wid" || op == "widt") && sx::known("F35-lookahead-widening-nonincreasing") && !B(A <= W.B))
+      throw sxe::abort_path{"F35: lookahead widening of a non-increasing pair"};
+#endif
     sx::form pick = W.inb("pick");
     if (op == "join") A = A | W.B;
     else if (op == "joineq") A |= W.B;
